@@ -1,10 +1,12 @@
 import EpyVerif.Lemmas.UFRun
+import EpyVerif.Lemmas.UFSite
 /-!
 # C13 — Newman–Ziff percolation reports true component sizes at every sample
 
 Model: `Model/UF.lean` (`newmanziff.py`: the `_components` array with path compression, `join`, `occupy`, and the sampling
 loop as repaired by the fix commit).  `Conn E a b` is connectivity in the working network whose edges are `E`.
-Bond percolation is proved; the site variant (`occupySite`) is modelled and tied to the code by replay only (PARTIAL).
+Bond percolation is proved directly; site percolation is proved by reduction to it (unoccupied sites viewed as singleton
+components, `UF.alpha`); the `gcc` / `ncomponents` counters of the site variant are tied to the code by replay only (PARTIAL).
 -/
 set_option linter.unusedSectionVars false
 open UF
@@ -72,5 +74,87 @@ theorem sampling (ps : List Rat) (hs : ps.Pairwise (· ≤ ·)) (M : Nat) (zf : 
 
 /-- non-vacuity: the path 0–1–2, edges occupied in the order (1,2), (0,1) -/
 example : (occupyAll 3 ((fun _ => -1), 1, 3) [(1, 2), (0, 1)]).2 = (3, 1) := by decide
+
+/-! ### site percolation -/
+
+/-- the working network of a site percolation run: every newly occupied site is joined to those of its neighbours that are
+    occupied by then (newest bonds first) -/
+def siteEdges (adj : Nat → List Nat) : List Nat → List Nat → List (Nat × Nat) → List (Nat × Nat)
+  | [], _, E => E
+  | v :: vs, occ, E =>
+    siteEdges adj vs (v :: occ) ((((adj v).filter (fun m => decide (m = v ∨ m ∈ occ))).map (fun m => (v, m))).reverse ++ E)
+
+/-- `SitePercolation`: occupy the sites `vs` in this order -/
+def siteAll (N : Nat) (un : Int) (adj : Nat → List Nat) : List Nat → BState → BState
+  | [], s => s
+  | v :: vs, s => siteAll N un adj vs (occupySite (N + 1) un s.1 s.2.1 s.2.2 v (adj v))
+
+theorem site_run (N : Nat) (un : Int) (adj : Nat → List Nat) (hadj : ∀ v m, m ∈ adj v → m < N) :
+    ∀ (vs occ : List Nat) (E : List (Nat × Nat)) (s : BState) (ρ d : Nat → Nat) (g n : Nat),
+    SiteOK N un s.1 → (∀ x, s.1 x ≠ un ↔ x ∈ occ) → Inv N E (alpha un s.1) ρ d g n → vs.Nodup → (∀ v ∈ vs, v < N ∧ v ∉ occ) →
+    ∃ ρ' d' g' n', Inv N (siteEdges adj vs occ E) (alpha un (siteAll N un adj vs s).1) ρ' d' g' n' ∧
+      SiteOK N un (siteAll N un adj vs s).1 ∧ (∀ x, (siteAll N un adj vs s).1 x ≠ un ↔ (x ∈ occ ∨ x ∈ vs)) := by
+  intro vs
+  induction vs with
+  | nil => intro occ E s ρ d g n ok ho inv _ _; exact ⟨ρ, d, g, n, inv, ok, fun x => by show s.1 x ≠ un ↔ _; simpa using ho x⟩
+  | cons v vs ih =>
+    intro occ E s ρ d g n ok ho inv hnd hb
+    obtain ⟨hv, hvo⟩ := hb v List.mem_cons_self
+    have hun : s.1 v = un := by
+      by_cases h : s.1 v = un
+      · exact h
+      · exact absurd ((ho v).1 h) hvo
+    obtain ⟨ok1, un1, ρ1, d1, g1, n1, inv1⟩ := occupySite_inv N un s.1 s.2.1 s.2.2 v (adj v) E ρ d g n ok hv hun (fun m hm => hadj v m hm) inv
+    have hf : (adj v).filter (fun m => decide (m = v ∨ s.1 m ≠ un)) = (adj v).filter (fun m => decide (m = v ∨ m ∈ occ)) := by
+      apply List.filter_congr; intro x _; simp only [ho x]
+    rw [hf] at inv1
+    have ho1 : ∀ x, (occupySite (N + 1) un s.1 s.2.1 s.2.2 v (adj v)).1 x ≠ un ↔ x ∈ v :: occ := by
+      intro x; rw [Ne, un1 x, List.mem_cons]
+      constructor
+      · intro h
+        by_cases hx : x = v
+        · exact Or.inl hx
+        · right; apply (ho x).1; intro hc; exact h ⟨hc, hx⟩
+      · rintro (h | h) ⟨hc, hx⟩
+        · exact hx h
+        · exact (ho x).2 h hc
+    obtain ⟨ρ2, d2, g2, n2, inv2, ok2, ho2⟩ := ih (v :: occ) _ (occupySite (N + 1) un s.1 s.2.1 s.2.2 v (adj v)) ρ1 d1 g1 n1 ok1 ho1 inv1
+      (List.nodup_cons.1 hnd).2 (fun x hx => ⟨(hb x (List.mem_cons_of_mem _ hx)).1, fun h => by
+        rcases List.mem_cons.1 h with h | h
+        · exact (List.nodup_cons.1 hnd).1 (h ▸ hx)
+        · exact (hb x (List.mem_cons_of_mem _ hx)).2 h⟩)
+    refine ⟨ρ2, d2, g2, n2, inv2, ok2, fun x => ?_⟩
+    rw [show siteAll N un adj (v :: vs) s = siteAll N un adj vs (occupySite (N + 1) un s.1 s.2.1 s.2.2 v (adj v)) from rfl, ho2 x]
+    simp only [List.mem_cons]
+    constructor
+    · rintro ((h | h) | h)
+      · exact Or.inr (Or.inl h)
+      · exact Or.inl h
+      · exact Or.inr (Or.inr h)
+    · rintro (h | h | h)
+      · exact Or.inl (Or.inr h)
+      · exact Or.inl (Or.inl h)
+      · exact Or.inr h
+
+/-- **site percolation, any occupation order**: after occupying the distinct sites `vs` of a network on `0..N-1` (neighbours
+    given by `adj`), viewing the sites not yet occupied as singletons, there is a representative function with: same
+    representative ⇔ joined by a path of bonds between occupied sites; the size stored at the root = the size of the component;
+    and a site is marked occupied exactly when it is in `vs` -/
+theorem site_samples_true (N : Nat) (hN : 0 < N) (adj : Nat → List Nat) (hadj : ∀ v m, m ∈ adj v → m < N) (vs : List Nat)
+    (hnd : vs.Nodup) (hb : ∀ v ∈ vs, v < N) :
+    let un : Int := N + 1
+    let s := siteAll N un adj vs ((fun _ => un), 0, 0)
+    (∀ x, s.1 x ≠ un ↔ x ∈ vs) ∧
+    ∃ ρ : Nat → Nat,
+      (∀ a b, a < N → b < N → (ρ a = ρ b ↔ Conn (siteEdges adj vs [] []) a b)) ∧
+      (∀ n, n < N → (- alpha un s.1 (ρ n)).toNat = (List.range N).countP (fun b => decide (ρ b = ρ n))) := by
+  intro un s
+  have ok0 : SiteOK N un (fun _ => un) := ⟨rfl, fun x hx => absurd rfl hx, fun x hx => absurd rfl hx⟩
+  have ha0 : alpha un (fun _ => un) = fun _ => -1 := by funext x; simp [alpha]
+  obtain ⟨ρ, d, g, n, inv, _, ho⟩ := site_run N un adj hadj vs [] [] ((fun _ => un), 0, 0) id (fun _ => 0) 1 N ok0
+    (fun x => by simp) (by rw [ha0]; exact init_inv N hN) hnd (fun v hv => ⟨hb v hv, by simp⟩)
+  refine ⟨fun x => by simpa using ho x, ρ, ?_⟩
+  obtain ⟨r1, r2, _⟩ := reported N _ _ ρ d g n inv
+  exact ⟨r1, r2⟩
 
 end C13
